@@ -96,7 +96,7 @@ def gen(r, tier, i):
         total -= calls.pop()[0]
     calls.append([r.choice([1.0, 2.0, 2.5]), 'update'])
     return {'procs': procs, 'overrides': overrides, 'script': script, 'calls': calls,
-            't0': r.choice([0, 0, 0.0, 2.0, 10.5]), 'emit_steps': [r.choice([2, 3, 0.5, 2.5])],
+            't0': r.choice([0, 0, 0.0, 2.0, 10.5]), 'emit_steps': [r.choice([2, 3, 0.5, 2.5])], 'legacy_steps': r.random() < 0.2,
             'emit_sum': r.random() < 0.8, 'emit_cell': r.random() < 0.7, 'inner_procs': inner_procs}
 
 
@@ -157,7 +157,8 @@ def build(spec, emit_step):
                     'out': {'sum': {'_default': 0, '_updater': 'set', '_emit': spec['emit_sum']}}}
 
         def next_update(self, timestep, states):
-            return {'out': {'sum': sum(v['a'] for v in states['st'].values())}}
+            # + 7: the derived value differs from its default already at the initial time
+            return {'out': {'sum': 7 + sum(v['a'] for v in states['st'].values())}}
 
     class Twice(Step):
         def ports_schema(self):
@@ -237,6 +238,10 @@ def build(spec, emit_step):
         for k in o['path']:
             node = node.setdefault(k, {})
         node['_emit'] = o['emit']
+    if spec.get('legacy_steps'):
+        # the steps are listed among the processes (the engine finds them there) and nothing is passed as steps
+        processes.update(steps)
+        steps = None
     e = MonEngine(processes=processes, steps=steps, flow=flow, topology=topology,
                   initial_state={'cells': {}, 'cells2': {}, 'deep': {'blob': 7}}, display_info=False,
                   emitter={'type': 'vmon_rec', 'snapshot': True}, emit_step=emit_step,
@@ -469,10 +474,10 @@ def run(spec):
         final = plain_values(m.eng.state.get_value())
         V.check('no_change_after_row', _eq(final, prev_snap[1]) or prev_snap[0] != m.eng.global_time,
                 lambda: ('state changed after the row of the same time was emitted', _diff(final, prev_snap[1])))
-    # steps precede the row of their tick: 'twice' == 2*'sum' == 2*sum(a) in every snapshot
+    # steps precede the row of their tick: 'twice' == 2*'sum' == 2*(7 + sum(a)) in every snapshot
     for ev in hist:
         snap = ev[4]
-        s = sum(v['a'] for v in snap.get('st', {}).values())
+        s = 7 + sum(v['a'] for v in snap.get('st', {}).values())
         V.check('row_after_steps', snap['out']['sum'] == s and snap['out']['twice'] == 2 * s,
                 lambda: ('row at t=%r emitted before that time\'s step phase completed' % ev[2], snap['out'], s))
     # emit_step differential
